@@ -75,12 +75,15 @@
 (* have a deadline far away (or none): they wait for ever.                    *)
 EXTENDS Naturals, Sequences, FiniteSets, TLC
 
-CONSTANTS Program,            \* [msgs, hold, ctl, rd, cx, fault, closer]:
+CONSTANTS Program,            \* [msgs, hold, dclose, ctl, rd, cx, fault, closer]:
                               \*   msgs   = sequence of messages, message = sequence of frames,
                               \*            frame = BOOLEAN (TRUE: a second transport write `extra`)
                               \*   ctl    = sequence (one per control sender) of sequences of
                               \*            opcodes in {"ping", "pong", "close"}, with "~" appended
                               \*            for a short deadline
+                              \*   dclose = sequence of the indices of the "messages" of D that are a Close frame
+                              \*            sent through the message API (WriteMessage, NextWriter or a
+                              \*            prepared message of type CloseMessage): one frame, one write
                               \*   hold   = per message, per frame: number of pauses of D's
                               \*            application before that frame
                               \*   rd     = sequence of the answers of the reader's handlers
@@ -146,10 +149,11 @@ IsCtl(e)    == e.part \in {"ctl", "cext", "ctl!", "cext!"}
 WriteNo(p)  == 1 + Cardinality({i \in 1..Len(wire) : wire[i].proc = p /\ wire[i].call = call[p]})
 FaultOf(p)  == {i \in 1..Len(prog.fault) : prog.fault[i].p = p /\ prog.fault[i].c = call[p] /\ prog.fault[i].k = WriteNo(p)}
 PartsDone(p) == Cardinality({i \in 1..Len(wire) : IsCtl(wire[i]) /\ wire[i].proc = p /\ wire[i].call = call[p]})
-IsClose(e)  == IsCtl(e) /\ Code(CtlSeq(e.proc)[e.call]) = "close"
+IsDClose(m) == \E i \in 1..Len(prog.dclose) : prog.dclose[i] = m
+IsClose(e)  == IF e.proc = "D" THEN IsDClose(e.call) ELSE IsCtl(e) /\ Code(CtlSeq(e.proc)[e.call]) = "close"
 \* the Close frame has been sent: its last part is on the wire
 CloseOnWire == \E i \in 1..Len(wire) : /\ IsClose(wire[i]) /\ ~IsCut(wire[i])
-                                        /\ wire[i].frame = CParts(wire[i].proc, wire[i].call)
+                                        /\ (wire[i].proc # "D" => wire[i].frame = CParts(wire[i].proc, wire[i].call))
 
 InitWith(pr) ==
   /\ prog = pr
@@ -257,7 +261,7 @@ TWrite(p) ==
                       /\ UNCHANGED latch
                  ELSE /\ pc' = [pc EXCEPT ![p] =
                            CASE pc[p] = "hdr" /\ Msg[fr]  -> IF FlushAtomic THEN "extra" ELSE "rel1"
-                             [] pc[p] = "hdr" /\ ~Msg[fr] -> "rel"
+                             [] pc[p] = "hdr" /\ ~Msg[fr] -> IF IsDClose(call["D"]) THEN "latch" ELSE "rel"
                              [] pc[p] = "extra"           -> "rel"
                              [] pc[p] \in {"ctl", "cext"} ->     \* the latch is set after the LAST part
                                   IF PartsDone(p) + 1 < CParts(p, call[p]) THEN "cext"
@@ -410,7 +414,7 @@ MsgIntact ==
 
 \* nothing reaches the wire after a Close frame
 AfterCloseWire == \A i \in 1..Len(wire) : IsClose(wire[i]) =>
-                     \A j \in (i + 1)..Len(wire) : /\ wire[j].part = "cext"
+                     \A j \in (i + 1)..Len(wire) : /\ wire[j].part \in {"cext", "cext!"} /\ wire[i].proc # "D"
                                                    /\ wire[j].proc = wire[i].proc /\ wire[j].call = wire[i].call
 
 \* a write call that began when a Close frame was on the wire fails with close-sent
@@ -450,7 +454,7 @@ ResultsHonest ==
 
 \* the messages that are completely on the wire (a prefix 1..n by InOrder)
 CompleteMsgs ==
-  {m \in 1..Len(prog.msgs) :
+  {m \in 1..Len(prog.msgs) : ~IsDClose(m) /\
      \A f \in 1..Len(prog.msgs[m]) :
        /\ OnWire([proc |-> "D", call |-> m, frame |-> f, part |-> "hdr"])
        /\ prog.msgs[m][f] => OnWire([proc |-> "D", call |-> m, frame |-> f, part |-> "extra"])}
